@@ -71,6 +71,15 @@ def selfonly_case(draw):
             "flags": {"bitmaps": False, "colr_version": 1, "keep_glyph_names": draw(st.booleans())}}
 
 
+def enumerate_cases(tier):
+    """C13's hand-made structure fonts as third-party input, on every run (what is drawn at random among 32 cases is as good as
+    untested), with the default flags; space glyph, layout rules, post format and glyph interleaving vary over the rows."""
+    rows = list(c13.fixed_rows())
+    for i, third in enumerate(rows):
+        third = dict(third, interleave=bool(i % 2))
+        yield {"kind": "third", "third": third, "flags": {"bitmaps": False, "colr_version": 1, "keep_glyph_names": bool(i % 2)}, "space": i != 1, "layout": i != 2, "post3": i == 3}
+
+
 def cases(tier):
     return st.one_of(case_st(tier), case_st(tier), case_st(tier), case_st(tier), selfonly_case())
 
